@@ -27,6 +27,19 @@
 //!   2000000..): a caught panic or an error is fine, a process that dies is the failure; after every call the store and a
 //!   clone taken before pass the storage audit and the content comparison;
 //! * a panic of the implementation in the middle of a history is caught and reported with the history.
+//!
+//! Strengthened after round 7:
+//! * every OTHER observation method of the stores (subjects / predicates / objects / graph_names / iris / blank_nodes / literals /
+//!   quoted_triples / variables / contains, the as_dataset / union_graph / graph(g) views) is compared with an oracle computed from the
+//!   statements the store was given: in the random histories after every step on the stores the step touched and on their relatives by
+//!   cloning, at every Query operation and at the end; in directed clone / mutate / OBSERVE histories (cases 1500000..) whose first
+//!   observation is ONE accessor on ONE side (possibly also called before the clone), a sample of them through the Coq model
+//!   C10/Observe.v: a value cached inside a store and shared with its clones shows up there;
+//! * size ladders (cases 3000000..): one store per type grown once per run to 2^10, 2^16, 2^17 (+-1) statements (2^20 with
+//!   --thorough-sizes) and to 2^16 / 2^17 distinct terms, cloned at every rung, every pattern shape on the clone and on the original
+//!   before and after mutating the clone, the original dropped and the clone grown further: an implementation that copies, queries or
+//!   releases a store differently from a certain size on is exercised on both sides of the threshold;
+//! * both run on other threads beside the random histories (`side_streams`).
 use sophia_api::dataset::CollectibleDataset;
 use sophia_api::graph::CollectibleGraph;
 use sophia_api::prelude::*;
@@ -86,6 +99,89 @@ impl<'a> Term for OwnT<'a> {
     fn to_triple(self) -> Option<[OwnT<'a>; 3]> { self.triple() }
 }
 
+
+// =====================================================================================================================
+// Strengthened after round 7: EVERY observation method of the stores, not only the listing and the pattern queries.
+// An `Acc` is what one of them yields: (name, a hash of every term / statement yielded, the same rendered as text when asked).
+// The oracle (`expected_acc`) computes the same from the statements the store was given; the answers are compared as SETS
+// (the accessors may yield duplicates).  Compared on BOTH sides of every clone, after the clone and after every mutation
+// of either side: a value cached inside a store and shared with its clones shows up as an accessor of one side following
+// the mutations of the other.
+// =====================================================================================================================
+type Acc = (&'static str, Vec<u64>, Vec<String>);
+const GACC: [&str; 10] = ["subjects()", "predicates()", "objects()", "iris()", "blank_nodes()", "literals()", "quoted_triples()", "variables()", "as_dataset().quads()", "as_dataset().graph_names()"];
+const DACC: [&str; 11] = ["subjects()", "predicates()", "objects()", "graph_names()", "iris()", "blank_nodes()", "literals()", "quoted_triples()", "variables()", "union_graph().triples()", "graph(g).triples() for g in graph_names() and the default graph"];
+fn th_into<T: Term, H: std::hash::Hasher>(t: T, h: &mut H) {
+    use TermKind::*;
+    match t.kind() {
+        Iri => { h.write_u8(1); h.write(t.iri().unwrap().as_bytes()); }
+        BlankNode => { h.write_u8(2); h.write(t.bnode_id().unwrap().as_bytes()); }
+        Literal => { h.write_u8(3); h.write(t.lexical_form().unwrap().as_bytes()); h.write_u8(0xfe); if let Some(l) = t.language_tag() { h.write_u8(1); h.write(l.as_bytes()); } else { h.write_u8(2); h.write(t.datatype().unwrap().as_bytes()); } }
+        Variable => { h.write_u8(4); h.write(t.variable().unwrap().as_bytes()); }
+        Triple => { h.write_u8(5); for c in t.triple().unwrap() { th_into(c, h); } }
+    }
+    h.write_u8(0xff);
+}
+/// a hash of the term as its accessors spell it
+struct Fnv(u64);
+impl std::hash::Hasher for Fnv { fn finish(&self) -> u64 { self.0 } fn write(&mut self, b: &[u8]) { let mut h = self.0; for c in b.chunks(8) { let mut w = [0u8; 8]; w[..c.len()].copy_from_slice(c); h = (h ^ u64::from_le_bytes(w)).wrapping_mul(0x100000001b3).rotate_left(23) ^ (c.len() as u64); } self.0 = h; } }
+fn th<T: Term>(t: T) -> u64 { use std::hash::Hasher; let mut h = Fnv(0xcbf29ce484222325); th_into(t, &mut h); h.finish() }
+fn th_stmt<T: Term>(t: [T; 3], g: Option<T>) -> u64 { use std::hash::Hasher; let mut h = Fnv(0xcbf29ce484222325); h.write_u8(9); let [a, b, c] = t; th_into(a, &mut h); th_into(b, &mut h); th_into(c, &mut h); match g { Some(g) => th_into(g, &mut h), None => h.write_u8(0) } h.finish() }
+fn rend<T: Term>(t: T) -> String {
+    use TermKind::*;
+    match t.kind() {
+        Iri => format!("<{}>", t.iri().unwrap().as_str()), BlankNode => format!("_:{}", t.bnode_id().unwrap().as_str()), Variable => format!("?{}", t.variable().unwrap().as_str()),
+        Literal => if let Some(l) = t.language_tag() { format!("{:?}@{}", &t.lexical_form().unwrap()[..], l.as_str()) } else { format!("{:?}^^<{}>", &t.lexical_form().unwrap()[..], t.datatype().unwrap().as_str()) },
+        Triple => { let [a, b, c] = t.triple().unwrap(); format!("<< {} {} {} >>", rend(a), rend(b), rend(c)) }
+    }
+}
+fn rend_stmt<T: Term>(t: [T; 3], g: Option<T>) -> String { let [a, b, c] = t; format!("{} {} {} {}", rend(a), rend(b), rend(c), g.map(|g| rend(g)).unwrap_or_else(|| "(default graph)".into())) }
+fn acc_terms<T: Term, E>(name: &'static str, it: impl Iterator<Item = Result<T, E>>, render: bool) -> Acc {
+    let mut a: Acc = (name, vec![], vec![]);
+    for t in it { let t = match t { Ok(t) => t, Err(_) => panic!("{name} yielded an error") }; a.1.push(th(t.borrow_term())); if render { a.2.push(rend(t.borrow_term())); } }
+    a
+}
+fn acc_stmts<T: Term, E>(name: &'static str, it: impl Iterator<Item = Result<([T; 3], Option<T>), E>>, render: bool) -> Acc {
+    let mut a: Acc = (name, vec![], vec![]);
+    for q in it { let (t, g) = match q { Ok(q) => q, Err(_) => panic!("{name} yielded an error") };
+        a.1.push(th_stmt([t[0].borrow_term(), t[1].borrow_term(), t[2].borrow_term()], g.as_ref().map(|g| g.borrow_term())));
+        if render { a.2.push(rend_stmt([t[0].borrow_term(), t[1].borrow_term(), t[2].borrow_term()], g.as_ref().map(|g| g.borrow_term()))); } }
+    a
+}
+/// the oracle: what every accessor must yield (as a set) for a store of family `fam` holding exactly `stmts`
+fn expected_acc(fam: u8, stmts: &[([&ST; 3], Option<&ST>)], render: bool) -> Vec<Acc> { expected_acc_of(fam, stmts, render, None) }
+/// (`only`: the others are left empty)
+fn expected_acc_of(fam: u8, stmts: &[([&ST; 3], Option<&ST>)], render: bool, only: Option<usize>) -> Vec<Acc> {
+    fn atoms<'a>(t: &'a ST, out: &mut Vec<&'a ST>) { if let SimpleTerm::Triple(tr) = t { for c in tr.iter() { atoms(c, out); } } else { out.push(t); } }
+    fn constituents<'a>(t: &'a ST, out: &mut Vec<&'a ST>) { out.push(t); if let SimpleTerm::Triple(tr) = t { for c in tr.iter() { constituents(c, out); } } }
+    fn spog_of<'a>(fam: u8, q: &'a ([&'a ST; 3], Option<&'a ST>)) -> Vec<&'a ST> { q.0.iter().copied().chain(if fam == 2 { q.1 } else { None }).collect() }
+    let terms = |name: &'static str, f: &dyn for<'a> Fn(&'a ([&'a ST; 3], Option<&'a ST>)) -> Vec<&'a ST>| -> Acc { let mut a: Acc = (name, vec![], vec![]); for q in stmts { for t in f(q) { a.1.push(th(t)); if render { a.2.push(rend(t)); } } } a };
+    let by_kind = |name: &'static str, k: TermKind| -> Acc { terms(name, &|q| { let mut v = vec![]; for t in spog_of(fam, q) { if k == TermKind::Triple { constituents(t, &mut v) } else { atoms(t, &mut v) } } v.into_iter().filter(|t| t.kind() == k).collect() }) };
+    let sts = |name: &'static str, with_g: bool| -> Acc { let mut a: Acc = (name, vec![], vec![]); for q in stmts { let g = if with_g { q.1 } else { None }; a.1.push(th_stmt(q.0, g)); if render { a.2.push(rend_stmt(q.0, g)); } } a };
+    let n = if fam == 1 { GACC.len() } else { DACC.len() };
+    (0..n).map(|k| { if only.is_some_and(|o| o != k) { return ("", vec![], vec![]); }
+        if fam == 1 { match k { 0 => terms(GACC[0], &|q| vec![q.0[0]]), 1 => terms(GACC[1], &|q| vec![q.0[1]]), 2 => terms(GACC[2], &|q| vec![q.0[2]]), 3 => by_kind(GACC[3], TermKind::Iri), 4 => by_kind(GACC[4], TermKind::BlankNode), 5 => by_kind(GACC[5], TermKind::Literal), 6 => by_kind(GACC[6], TermKind::Triple), 7 => by_kind(GACC[7], TermKind::Variable), 8 => sts(GACC[8], false), _ => (GACC[9], vec![], vec![]) } }
+        else { match k { 0 => terms(DACC[0], &|q| vec![q.0[0]]), 1 => terms(DACC[1], &|q| vec![q.0[1]]), 2 => terms(DACC[2], &|q| vec![q.0[2]]), 3 => terms(DACC[3], &|q| q.1.into_iter().collect()), 4 => by_kind(DACC[4], TermKind::Iri), 5 => by_kind(DACC[5], TermKind::BlankNode), 6 => by_kind(DACC[6], TermKind::Literal), 7 => by_kind(DACC[7], TermKind::Triple), 8 => by_kind(DACC[8], TermKind::Variable), 9 => sts(DACC[9], false), _ => sts(DACC[10], true) } } }).collect()
+}
+fn as_set<T: Ord + Clone>(v: &[T]) -> Vec<T> { let mut v = v.to_vec(); v.sort(); v.dedup(); v }
+/// every accessor of the store against the oracle, then `contains` on statements that are there and on statements that are not
+static ACC_NS: std::sync::atomic::AtomicU64 = std::sync::atomic::AtomicU64::new(0);
+fn acc_mismatch(s: &Store, stmts: &[([&ST; 3], Option<&ST>)], absent: &ST) -> Option<String> { let t0 = std::time::Instant::now(); let r = acc_mismatch0(s, stmts, absent); if std::env::var("ACC_TRACE").is_ok() { eprintln!("ACC {} {}", stmts.len(), t0.elapsed().as_micros()); } ACC_NS.fetch_add(t0.elapsed().as_nanos() as u64, std::sync::atomic::Ordering::Relaxed); r }
+fn acc_mismatch0(s: &Store, stmts: &[([&ST; 3], Option<&ST>)], absent: &ST) -> Option<String> {
+    let fam = s.fam(); if fam == 0 { return None; }
+    let got = s.accessors(None, false); let exp = expected_acc(fam, stmts, false);
+    for (k, (g, e)) in got.iter().zip(exp.iter()).enumerate() { if as_set(&g.1) != as_set(&e.1) {
+        let g2 = s.accessors(Some(k), true); let e2 = expected_acc(fam, stmts, true);
+        return Some(format!("{} yields {:?} ({} distinct items), but the store was given {} statements and must yield {:?} ({} distinct items)", g.0, as_set(&g2[0].2).iter().take(8).collect::<Vec<_>>(), as_set(&g.1).len(), stmts.len(), as_set(&e2[k].2).iter().take(8).collect::<Vec<_>>(), as_set(&e.1).len()));
+    } }
+    if got.len() != exp.len() { return Some(format!("{} accessors were observed, {} expected", got.len(), exp.len())); }
+    let is_in = |t: [&ST; 3], g: Option<&ST>| { let h = th_stmt(t, if fam == 2 { g } else { None }); stmts.iter().any(|q| th_stmt(q.0, if fam == 2 { q.1 } else { None }) == h) };
+    let mut probes: Vec<([&ST; 3], Option<&ST>)> = vec![];
+    if let (Some(f), Some(l)) = (stmts.first(), stmts.last()) { probes.push(*f); probes.push(*l); probes.push(([f.0[0], f.0[1], l.0[2]], f.1)); probes.push(([l.0[0], f.0[1], f.0[2]], l.1)); probes.push((f.0, None)); probes.push(([absent, f.0[1], f.0[2]], f.1)); if fam == 2 { probes.push((f.0, Some(absent))); probes.push((l.0, f.1)); } }
+    for (t, g) in probes { let want = is_in(t, g); let got = s.has(t, g); if got != Some(want) { return Some(format!("contains({}) answers {got:?}, but the statement is {} the {} statements the store was given", rend_stmt(t, if fam == 2 { g } else { None }), if want { "among" } else { "not among" }, stmts.len())); } }
+    None
+}
+
 /// what a live store offers as a SOURCE for building / extending another store (borrowing from the live store)
 trait Src {
     fn fam(&self) -> u8;
@@ -108,6 +204,12 @@ trait St: Clone + Default + Send + Src + 'static {
     fn extend_from(&mut self, src: &dyn Src) -> Result<(), ()>;
     /// the statements matching a pattern whose constants are the positions of `mask` (s = bit 0, p = 1, o = 2, g = 3) of (t, g)
     fn matching(&self, _mask: u8, _t: [&ST; 3], _g: Option<&ST>) -> Vec<([ST; 3], Option<ST>)> { vec![] }
+    /// as `matching`, for the stores of the size ladders: the answers as identifiers (`big_id`), nothing is copied
+    fn matching_ids(&self, _mask: u8, _t: [&ST; 3], _g: Option<&ST>) -> Vec<[u64; 4]> { vec![] }
+    /// every OTHER public observation method (see `Acc`): all of them, or only the `which`-th one
+    fn accessors(&self, _which: Option<usize>, _render: bool) -> Vec<Acc> { vec![] }
+    /// `contains`
+    fn has(&self, _t: [&ST; 3], _g: Option<&ST>) -> Option<bool> { None }
     /// the entry points of the store that take terms, called with a user-defined term type (see `Hostile`)
     fn term_entries() -> &'static [&'static str];
     fn term_entry<T: Term + Copy>(&mut self, e: usize, t: [T; 3], g: Option<T>);
@@ -166,6 +268,20 @@ macro_rules! graph_impl { ($G:ident) => {
             let m = |i: usize| if mask >> i & 1 == 1 { TMx::K(t[i].clone()) } else { TMx::A };
             self.triples_matching(m(0), m(1), m(2)).map(|x| { let x = x.ok().unwrap(); ([deep(x[0]), deep(x[1]), deep(x[2])], None) }).collect()
         }
+        fn matching_ids(&self, mask: u8, t: [&ST; 3], _g: Option<&ST>) -> Vec<[u64; 4]> {
+            let m = |i: usize| if mask >> i & 1 == 1 { TMx::K(t[i].clone()) } else { TMx::A };
+            self.triples_matching(m(0), m(1), m(2)).map(|x| { let x = x.ok().unwrap(); [big_id(x[0]), big_id(x[1]), big_id(x[2]), 0] }).collect()
+        }
+        fn accessors(&self, which: Option<usize>, render: bool) -> Vec<Acc> {
+            let want = |k: usize| which.is_none_or(|w| w == k); let mut v = vec![];
+            if want(0) { v.push(acc_terms(GACC[0], self.subjects(), render)); } if want(1) { v.push(acc_terms(GACC[1], self.predicates(), render)); } if want(2) { v.push(acc_terms(GACC[2], self.objects(), render)); }
+            if want(3) { v.push(acc_terms(GACC[3], self.iris(), render)); } if want(4) { v.push(acc_terms(GACC[4], self.blank_nodes(), render)); } if want(5) { v.push(acc_terms(GACC[5], self.literals(), render)); }
+            if want(6) { v.push(acc_terms(GACC[6], self.quoted_triples(), render)); } if want(7) { v.push(acc_terms(GACC[7], self.variables(), render)); }
+            if want(8) { v.push(acc_stmts(GACC[8], self.as_dataset().quads().map(|q| q.map(|q| q.to_spog())), render)); }
+            if want(9) { v.push(acc_terms(GACC[9], self.as_dataset().graph_names(), render)); }
+            v
+        }
+        fn has(&self, t: [&ST; 3], _g: Option<&ST>) -> Option<bool> { Some(self.contains(t[0], t[1], t[2]).ok().unwrap()) }
         fn term_entries() -> &'static [&'static str] { &["insert", "remove", "contains", "triples_matching (constants through a user matcher, every shape)", "triples_matching ([t] / Some(t) matchers)", "insert_all", "from_triple_source", "collect_triples", "remove_all", "remove_matching", "retain_matching", "insert_triple + remove_triple", "insert into a clone"] }
         fn term_entry<T: Term + Copy>(&mut self, e: usize, t: [T; 3], _g: Option<T>) { use sophia_api::term::matcher::Any; let one = || std::iter::once(Ok::<[T; 3], MyErr>(t)); match e {
             0 => { let _ = self.insert(t[0], t[1], t[2]); }
@@ -232,6 +348,29 @@ macro_rules! dataset_impl { ($D:ident) => {
             let gm = if mask >> 3 & 1 == 1 { GMx::K(g.cloned()) } else { GMx::A };
             self.quads_matching(m(0), m(1), m(2), gm).map(|q| { let (g, x) = q.ok().unwrap(); ([deep(x[0]), deep(x[1]), deep(x[2])], g.map(deep)) }).collect()
         }
+        fn matching_ids(&self, mask: u8, t: [&ST; 3], g: Option<&ST>) -> Vec<[u64; 4]> {
+            let m = |i: usize| if mask >> i & 1 == 1 { TMx::K(t[i].clone()) } else { TMx::A };
+            let gm = if mask >> 3 & 1 == 1 { GMx::K(g.cloned()) } else { GMx::A };
+            self.quads_matching(m(0), m(1), m(2), gm).map(|q| { let (g, x) = q.ok().unwrap(); [big_id(x[0]), big_id(x[1]), big_id(x[2]), g.map(|g| big_id(g)).unwrap_or(0)] }).collect()
+        }
+        fn accessors(&self, which: Option<usize>, render: bool) -> Vec<Acc> {
+            let want = |k: usize| which.is_none_or(|w| w == k); let mut v = vec![];
+            if want(0) { v.push(acc_terms(DACC[0], self.subjects(), render)); } if want(1) { v.push(acc_terms(DACC[1], self.predicates(), render)); } if want(2) { v.push(acc_terms(DACC[2], self.objects(), render)); }
+            if want(3) { v.push(acc_terms(DACC[3], self.graph_names(), render)); }
+            if want(4) { v.push(acc_terms(DACC[4], self.iris(), render)); } if want(5) { v.push(acc_terms(DACC[5], self.blank_nodes(), render)); } if want(6) { v.push(acc_terms(DACC[6], self.literals(), render)); }
+            if want(7) { v.push(acc_terms(DACC[7], self.quoted_triples(), render)); } if want(8) { v.push(acc_terms(DACC[8], self.variables(), render)); }
+            if want(9) { v.push(acc_stmts(DACC[9], self.union_graph().triples().map(|t| t.map(|t| (t.to_spo(), None))), render)); }
+            if want(10) {
+                // the way SPARQL's GRAPH ?g {...} walks through a dataset: graph_names(), then graph(g) for each of them (and the default graph)
+                let mut names: Vec<Option<ST>> = vec![None]; let mut seen = std::collections::HashSet::new();
+                for g in self.graph_names() { let g = g.ok().unwrap(); if seen.insert(th(g)) { names.push(Some(deep(g))); } }
+                let mut a: Acc = (DACC[10], vec![], vec![]);
+                for g in names { let dg = self.graph(g.clone()); let part = acc_stmts(DACC[10], dg.triples().map(|t| t.map(|t| (t, g.as_ref()))), render); a.1.extend(part.1); a.2.extend(part.2); }
+                v.push(a);
+            }
+            v
+        }
+        fn has(&self, t: [&ST; 3], g: Option<&ST>) -> Option<bool> { Some(self.contains(t[0], t[1], t[2], g).ok().unwrap()) }
         fn term_entries() -> &'static [&'static str] { &["insert", "remove", "contains", "quads_matching (constants through a user matcher, every shape)", "quads_matching ([t] / Some(t) matchers)", "insert_all", "from_quad_source", "collect_quads", "remove_all", "remove_matching", "retain_matching", "insert_quad + remove_quad", "insert into a clone"] }
         fn term_entry<T: Term + Copy>(&mut self, e: usize, t: [T; 3], g: Option<T>) { use sophia_api::term::matcher::Any; let one = || std::iter::once(Ok::<([T; 3], Option<T>), MyErr>((t, g))); match e {
             0 => { let _ = self.insert(t[0], t[1], t[2], g); }
@@ -339,6 +478,9 @@ impl Store {
     }
     fn remove(&mut self, ts: [&ST; 3], g: Option<&ST>) -> Option<bool> { each!(self; x => x.rem(ts, g)) }
     fn matching(&self, mask: u8, ts: [&ST; 3], g: Option<&ST>) -> Vec<([ST; 3], Option<ST>)> { each!(self; x => x.matching(mask, ts, g)) }
+    fn accessors(&self, which: Option<usize>, render: bool) -> Vec<Acc> { each!(self; x => x.accessors(which, render)) }
+    fn matching_ids(&self, mask: u8, ts: [&ST; 3], g: Option<&ST>) -> Vec<[u64; 4]> { each!(self; x => x.matching_ids(mask, ts, g)) }
+    fn has(&self, ts: [&ST; 3], g: Option<&ST>) -> Option<bool> { each!(self; x => x.has(ts, g)) }
     /// std::mem::take on the concrete store: its content moves out, a Default store of the same type stays
     fn take(&mut self) -> Store { wrap!(self; x => std::mem::take(x)) }
     fn collect(src: &Store, dk: usize, how: usize) -> Result<Store, ()> { let s = src.as_src(); by_kind!(dk; T, v => <T as St>::collect_from(s, how).map(v)) }
@@ -668,6 +810,20 @@ fn storage_audit(slots: &[Option<Held>], ops: &[Op]) -> Option<String> {
     }
     None
 }
+/// the accessors are compared after EVERY step on stores of at most this many statements, and at the end of the history and at every Query
+/// operation on stores of any size (cost)
+const ACC_EVERY_STEP_UP_TO: usize = 40;
+/// the statements the shadow says a store holds, with the terms as the store first interned them
+fn shadow_stmts(sh: &Sh) -> Vec<([&ST; 3], Option<&ST>)> {
+    let tm: std::collections::HashMap<u64, &ST> = sh.terms.iter().map(|(i, t)| (*i, t)).collect();
+    sh.stmts.iter().map(|k| ([tm[&k[0]], tm[&k[1]], tm[&k[2]]], if k[3] == 0 { None } else { Some(tm[&k[3]]) })).collect()
+}
+/// the stores related to one of `touched` by a clone / a collection, in either direction (whether or not `touched` are still alive)
+fn clone_group(touched: &[usize], cloned_from: &[(usize, usize)]) -> Vec<usize> {
+    let mut g: Vec<usize> = touched.to_vec();
+    for x in touched { for (a, b) in cloned_from { for (u, v) in [(a, b), (b, a)] { if u == x && !g.contains(v) { g.push(*v); } } } }
+    g
+}
 /// everything that must hold after every step
 /// one store against its shadow through the statement API: every pattern shape answers with the statements the store lists,
 /// and it lists exactly the statements it was given
@@ -677,10 +833,12 @@ fn full_store_check(i: usize, slots: &[Option<Held>], shadow: &[Sh], ids: &Ids, 
     let mut got: Vec<[u64; 4]> = s.stmts().iter().map(|(t, g)| [ids.id(t[0]), ids.id(t[1]), ids.id(t[2]), g.map(|g| ids.id(g)).unwrap_or(0)]).collect();
     let mut exp = shadow[i].stmts.clone(); let listed = got.len(); got.sort_unstable(); got.dedup(); exp.sort_unstable();
     if got != exp || listed != exp.len() { return Some(format!("after {:?}: store #{i} ({}) lists {listed} statements {:?}, expected the {} statements {:?} (identifiers s, p, o, g; 0 = default graph)", ops, s.kind(), got.iter().take(8).collect::<Vec<_>>(), exp.len(), exp.iter().take(8).collect::<Vec<_>>())); }
+    // and every other observation method (subjects(), ..., graph_names(), contains(), the graph / dataset views)
+    if let Some(why) = acc_mismatch(s, &shadow_stmts(&shadow[i]), absent) { return Some(format!("after {:?}: store #{i} ({}): {why}", ops, s.kind())); }
     None
 }
 /// quiet: only what the storage hooks and the term index show (no statement is listed, no pattern is queried)
-fn check_step(slots: &[Option<Held>], shadow: &[Sh], ids: &Ids, ops: &[Op], cloned_from: &[(usize, usize)], run_shapes: bool, absent: &ST, quiet: bool) -> Option<String> {
+fn check_step(slots: &[Option<Held>], shadow: &[Sh], ids: &Ids, ops: &[Op], cloned_from: &[(usize, usize)], run_shapes: bool, absent: &ST, quiet: bool, acc_group: &[usize], acc_any_size: bool) -> Option<String> {
     // no live store points into memory it does not own
     let audits: Vec<Option<Vec<bool>>> = slots.iter().map(|h| h.as_ref().map(|h| h.get().audit())).collect();
     for (i, au) in audits.iter().enumerate() { if let Some(au) = au { if au.iter().any(|b| !b) { let s = slots[i].as_ref().unwrap().get();
@@ -704,6 +862,8 @@ fn check_step(slots: &[Option<Held>], shadow: &[Sh], ids: &Ids, ops: &[Op], clon
             let mut got: Vec<[u64; 4]> = s.stmts().iter().map(|(t, g)| [ids.id(t[0]), ids.id(t[1]), ids.id(t[2]), g.map(|g| ids.id(g)).unwrap_or(0)]).collect();
             let mut exp = sh.stmts.clone(); let listed = got.len(); got.sort_unstable(); got.dedup(); exp.sort_unstable();
             if got != exp || listed != exp.len() { return Some(format!("after {:?}: store #{i} ({}) lists {listed} statements {:?}, expected the {} statements {:?} (identifiers s, p, o, g; 0 = default graph)", ops, s.kind(), got.iter().take(8).collect::<Vec<_>>(), exp.len(), exp.iter().take(8).collect::<Vec<_>>())); }
+            // every other observation method, on the store the step touched and on every store related to it by clones
+            if acc_group.contains(&i) && (sh.stmts.len() <= ACC_EVERY_STEP_UP_TO || acc_any_size) { if let Some(why) = acc_mismatch(s, &shadow_stmts(sh), absent) { return Some(format!("after {:?}: store #{i} ({}): {why}", ops, s.kind())); } }
         }
     } }
     None
@@ -1124,13 +1284,324 @@ fn hostile_stream(sum: &mut Summary, only: Option<usize>) {
     sum.bump_by("hostile:calls of store entry points (each followed by the storage audit and the content comparison of the store and of a clone taken before)", calls);
 }
 
+
+// =====================================================================================================================
+// Round 7, directed clone / mutate / OBSERVE histories (cases ABASE..): as the directed query histories above, with the
+// other observation methods.  The store is loaded by insertions only (terms of every kind, three graph names, quoted
+// triples, a variable), one accessor is possibly called on it BEFORE the clone (a value cached then is cloned with the
+// store), it is cloned in one of the 18 ways, one side or both are mutated so that what the accessors must yield changes
+// (a new graph name arrives, a graph loses its last quad, a subject / a quoted triple / a literal disappears), and only
+// then the FIRST observation is made: ONE accessor (or contains) on ONE side; then every accessor on the other side, then
+// on the first side; both sides are mutated again and swept in the other order; the side observed first is dropped and
+// the other one swept again.  Every answer is compared with the oracle (expected_acc on the statements the side was
+// given) and, for a sample, with the Coq model C10/Observe.v (the term accessors and contains).
+// =====================================================================================================================
+const ABASE: usize = 1_500_000;
+/// (g, s, p, o); 0 = default graph
+const AST: [[u64; 4]; 7] = [[7, 1, 2, 3], [7, 4, 2, 5], [0, 1, 6, 10], [8, 4, 6, 3], [0, 10, 2, 11], [9, 12, 2, 13], [8, 1, 2, 11]];
+fn aterm(i: u64) -> ST { match i { 1 => iri("http://a.example/s1"), 2 => iri("http://a.example/p1"), 3 => lit_lang("o1", "en"), 4 => bnode("b1"), 5 => lit_dt("5", &format!("{XSD}integer")), 6 => iri("http://a.example/p2"), 7 => iri("http://a.example/g1"), 8 => iri("http://a.example/g2"), 9 => bnode("g3"),
+    10 => triple(aterm(4), aterm(6), aterm(5)), 11 => var("v"), 12 => iri("http://a.example/s3"), 13 => triple(aterm(10), aterm(2), aterm(1)), _ => iri("http://a.example/none") } }
+const AHEADER: &str = "From Sophia.C10 Require Import Observe.\nDefinition AS (i : N) : quad := match i with 0 => Q 7 1 2 3 | 1 => Q 7 4 2 5 | 2 => Q 0 1 6 10 | 3 => Q 8 4 6 3 | 4 => Q 0 10 2 11 | 5 => Q 9 12 2 13 | _ => Q 8 1 2 11 end.\nDefinition ASG : tsig := [(1, KIri); (2, KIri); (3, KLit); (4, KBnode); (5, KLit); (6, KIri); (7, KIri); (8, KIri); (9, KBnode); (10, KTriple 4 6 5); (11, KVar); (12, KIri); (13, KTriple 10 2 1)].\nDefinition AI (sid i : N) : aop := AQ (QIns sid (AS i)).\nDefinition AR (sid i : N) : aop := AQ (QRem sid (AS i)).\nDefinition AH (sid i : N) : aop := AHas sid (AS i).\nDefinition AB (b : bool) : aobs := AO (OBool b).";
+#[derive(Clone, Copy, Debug)]
+struct AScen { kind: usize, plan: usize, first_side: usize, first_acc: usize, pre: bool }
+fn nacc(kind: usize) -> usize { if fam_of(kind) == 1 { GACC.len() } else { DACC.len() } }
+fn ascen_list() -> Vec<AScen> {
+    let mut v = vec![];
+    // (the table has 13 terms: the types over the tiny capacity-limited indexes are left to the query histories)
+    for kind in (0..NKINDS).filter(|k| fam_of(*k) != 0 && !matches!(*k, 8 | 15 | 16 | 17)) { for plan in 0..8 { for first_side in 0..2 { for first_acc in 0..=nacc(kind) { for pre in [false, true] { v.push(AScen { kind, plan, first_side, first_acc, pre }); } } } } }
+    v
+}
+/// the constructor of the Coq model for the accessor `name`, if the model has it
+fn coq_acc(name: &str) -> Option<&'static str> { Some(match name { "subjects()" => "ASubjects", "predicates()" => "APredicates", "objects()" => "AObjects", "graph_names()" => "AGraphNames", "iris()" => "AIris", "blank_nodes()" => "ABnodes", "literals()" => "ALiterals", "quoted_triples()" => "AQuoted", "variables()" => "AVariables", _ => return None }) }
+struct ARun { isg: bool, fam: u8, kind: &'static str, terms: Vec<ST>, rmap: std::collections::HashMap<String, u64>, record: bool, doing: String, sides: [Option<Store>; 2], shadow: [Vec<usize>; 2], ops: Vec<String>, obs: Vec<String>, hist: Vec<String>, fail: Option<String>, nobs: usize }
+impl ARun {
+    fn parts(&self, j: usize) -> ([ST; 3], Option<ST>) { let q = AST[j]; ([self.terms[q[1] as usize].clone(), self.terms[q[2] as usize].clone(), self.terms[q[3] as usize].clone()], if q[0] == 0 { None } else { Some(self.terms[q[0] as usize].clone()) }) }
+    fn same_stmt(&self, a: usize, b: usize) -> bool { if self.isg { AST[a][1..] == AST[b][1..] } else { AST[a] == AST[b] } }
+    fn ins(&mut self, side: usize, j: usize) {
+        if self.fail.is_some() { return; }
+        let (t, g) = self.parts(j); self.doing = format!("insert A{j} into {}", SIDE[side]);
+        let r = self.sides[side].as_mut().unwrap().insert([&t[0], &t[1], &t[2]], g.as_ref(), 0);
+        let was = self.shadow[side].iter().any(|x| self.same_stmt(*x, j)); if !was { self.shadow[side].push(j); }
+        self.hist.push(self.doing.clone()); if self.record { self.ops.push(format!("AI {side} {j}")); }
+        match r { Ok(Some(b)) => { if self.record { self.obs.push(format!("AB {}", coq_bool(b))); } if b == was { self.fail = Some(format!("inserting A{j} into {} returned {b}, but the statement was {} there", SIDE[side], if was { "already" } else { "not yet" })); } }
+            _ => { self.fail = Some(format!("inserting A{j} into {} failed", SIDE[side])); } }
+    }
+    fn rem(&mut self, side: usize, j: usize) {
+        if self.fail.is_some() { return; }
+        let (t, g) = self.parts(j); self.doing = format!("remove A{j} from {}", SIDE[side]);
+        let r = self.sides[side].as_mut().unwrap().remove([&t[0], &t[1], &t[2]], g.as_ref());
+        let was = self.shadow[side].iter().any(|x| self.same_stmt(*x, j)); let isg = self.isg; self.shadow[side].retain(|x| !(if isg { AST[*x][1..] == AST[j][1..] } else { AST[*x] == AST[j] }));
+        self.hist.push(self.doing.clone()); if self.record { self.ops.push(format!("AR {side} {j}")); }
+        match r { Some(b) => { if self.record { self.obs.push(format!("AB {}", coq_bool(b))); } if b != was { self.fail = Some(format!("removing A{j} from {} returned {b}, but the statement was {} there", SIDE[side], if was { "" } else { "not" })); } }
+            None => { self.fail = Some("remove is not available".into()); } }
+    }
+    /// one accessor (k < number of accessors) or `contains` of every statement of the table (k = number of accessors)
+    fn observe(&mut self, side: usize, k: usize) {
+        if self.fail.is_some() { return; }
+        let names: &[&str] = if self.isg { &GACC } else { &DACC };
+        if k >= names.len() {
+            for j in 0..AST.len() { let (t, g) = self.parts(j); self.doing = format!("contains(A{j}) on {}", SIDE[side]); self.nobs += 1;
+                let got = self.sides[side].as_ref().unwrap().has([&t[0], &t[1], &t[2]], g.as_ref()); let want = self.shadow[side].iter().any(|x| self.same_stmt(*x, j));
+                if self.record { self.hist.push(self.doing.clone()); self.ops.push(format!("AH {side} {j}")); self.obs.push(format!("AB {}", coq_bool(got == Some(true)))); }
+                if got != Some(want) { if !self.record { self.hist.push(self.doing.clone()); } self.fail = Some(format!("contains(A{j}) on {} answers {got:?}, but it holds {:?}", SIDE[side], self.shadow[side].iter().map(|x| format!("A{x}")).collect::<Vec<_>>())); return; } }
+            return;
+        }
+        self.doing = format!("{} on {}", names[k], SIDE[side]); self.nobs += 1;
+        let rec = self.record;
+        let got = self.sides[side].as_ref().unwrap().accessors(Some(k), rec).pop().unwrap();
+        let held_ref: Vec<([&ST; 3], Option<&ST>)> = self.shadow[side].iter().map(|j| { let q = AST[*j]; ([&self.terms[q[1] as usize], &self.terms[q[2] as usize], &self.terms[q[3] as usize]], if self.isg || q[0] == 0 { None } else { Some(&self.terms[q[0] as usize]) }) }).collect();
+        let exp = expected_acc_of(self.fam, &held_ref, rec, Some(k)).swap_remove(k);
+        // (without the record, only the hashes are compared; a history that fails is run again with the record)
+        if !rec { if as_set(&got.1) != as_set(&exp.1) { self.hist.push(self.doing.clone()); self.fail = Some(format!("{} on {} does not yield what it must", names[k], SIDE[side])); } return; }
+        if self.record { self.hist.push(self.doing.clone()); if let Some(c) = coq_acc(names[k]) { self.ops.push(format!("AObs {side} {c}")); self.obs.push(format!("ASet {}", coq_list(got.2.iter().map(|r| self.rmap.get(r).copied().unwrap_or(99).to_string())))); } }
+        if as_set(&got.2) != as_set(&exp.2) || as_set(&got.1) != as_set(&exp.1) { if !self.record { self.hist.push(self.doing.clone()); }
+            self.fail = Some(format!("{} on {} yields {:?}, but it holds {:?} and must yield {:?}", names[k], SIDE[side], as_set(&got.2), self.shadow[side].iter().map(|x| format!("A{x}")).collect::<Vec<_>>(), as_set(&exp.2))); }
+    }
+    fn sweep(&mut self, side: usize) { let n = if self.isg { GACC.len() } else { DACC.len() }; for k in 0..=n { self.observe(side, k); } }
+}
+fn run_ascen(k: usize, sc: &AScen, record: bool) -> (Option<String>, String, usize) {
+    let isg = fam_of(sc.kind) == 1;
+    let terms: Vec<ST> = (0..=13).map(aterm).collect();
+    let mut r = ARun { isg, fam: fam_of(sc.kind), kind: "", rmap: (1..=13u64).map(|i| (rend(&terms[i as usize]), i)).collect(), terms, record, doing: String::new(), sides: [Some(Store::mk(sc.kind, k % 4)), None], shadow: [vec![], vec![]], ops: vec![], obs: vec![], hist: vec![], fail: None, nobs: 0 };
+    r.kind = r.sides[0].as_ref().unwrap().kind();
+    let res = { let r = &mut r; std::panic::catch_unwind(std::panic::AssertUnwindSafe(move || {
+    r.ops.push(format!("AQ (QNew 0 {})", design_of(sc.kind))); r.obs.push("AO ONone".into());
+    for j in 0..3 { r.ins(0, j); }
+    if sc.pre { r.observe(0, sc.first_acc); }
+    let via = k % NVIA; let (h, c, _) = clone_via(Held::Plain(r.sides[0].take().unwrap()), via); r.sides[0] = Some(h.unwrap()); r.sides[1] = Some(c); r.shadow[1] = r.shadow[0].clone();
+    r.hist.push(format!("clone (way {via})")); r.ops.push("AQ (QClone 0 1)".into()); r.obs.push("AO ONone".into());
+    let x = sc.plan & 1; let y = 1 - x;
+    match sc.plan >> 1 { 0 => r.ins(x, 3), 1 => r.rem(x, 2), 2 => { r.ins(x, 5); r.rem(y, 0); r.rem(y, 1); } _ => { r.rem(x, 0); r.rem(x, 1); r.ins(x, 3); } }
+    let f = sc.first_side; let o = 1 - f;
+    r.observe(f, sc.first_acc);
+    r.sweep(o); r.sweep(f);
+    r.ins(y, 4); r.rem(x, 2); r.ins(x, 6);
+    r.sweep(f); r.sweep(o);
+    if r.fail.is_none() { r.sides[f] = None; r.hist.push(format!("drop {}", SIDE[f])); r.ops.push(format!("AQ (QDrop {f})")); r.obs.push("AO ONone".into()); }
+    r.sweep(o);
+    })) };
+    if res.is_err() && r.fail.is_none() { r.fail = Some(format!("then `{}` PANICKED: {}", r.doing, my_panic())); }
+    let fail = r.fail.as_ref().map(|why| format!("directed clone/mutate/observe history #{k} on a {} (A0..A6 = {:?} as g,s,p,o; 0 = default graph{}; terms 1 s1, 2 p1, 3 \"o1\"@en, 4 _:b1, 5 \"5\"^^xsd:integer, 6 p2, 7 g1, 8 g2, 9 _:g3, 10 << _:b1 p2 5 >>, 11 ?v, 12 s3, 13 << <<10>> p1 s1 >>): [{}]: {why}", r.kind, AST, if isg { "; a graph ignores g" } else { "" }, r.hist.join("; ")));
+    (fail, format!("ahist_ok ASG {} {}", coq_list(r.ops.iter().cloned()), coq_list(r.obs.iter().cloned())), r.nobs)
+}
+
+// =====================================================================================================================
+// Round 7, SIZE thresholds (cases BIG_BASE..): an implementation may copy, query or release a store differently from a
+// certain size on (parallel copies, other containers, bulk paths).  One store per store type is grown ONCE per run along
+// a ladder of sizes just below, at and just above powers of two (2^10, 2^16, 2^17 statements in the quick tier; 2^20 as
+// well in the thorough tier); at every rung it is cloned (Clone and clone_from at every rung, each of the 18 ways at the
+// rungs just above a power of two), and the clone and the original are compared with the oracle (the statements that were
+// inserted): every pattern shape for a probe statement, the number of statements listed, the full listing and every
+// accessor for the plain clone; then the clone is mutated (a removal, an insertion of new terms) and both are compared
+// again, the clone is cloned and dropped, and at the end of the rung the ORIGINAL is dropped and its last clone goes on
+// growing.  The same for term indexes (and stores) holding 2^16 / 2^17 DISTINCT terms.  One history of 257 statements
+// per design is also evaluated by the Coq model (C10/Query.v).
+// =====================================================================================================================
+const BIG_BASE: usize = 3_000_000;
+const BIG_NO: usize = 128; const BIG_NP: usize = 16;
+/// the i-th statement (s, p, o, g) of the big stores: identifiers 1e6.. subjects, 2e6.. predicates, 3e6.. objects, 4e6+1..3 graph names (0 = default graph)
+fn big_stmt(i: usize, isg: bool) -> [u64; 4] { let (o, p, s) = (i % BIG_NO, (i / BIG_NO) % BIG_NP, i / (BIG_NO * BIG_NP)); [1_000_000 + s as u64, 2_000_000 + p as u64, 3_000_000 + o as u64, if isg || (s + o) % 4 == 0 { 0 } else { 4_000_000 + ((s + o) % 4) as u64 }] }
+const BIG_NEW: [u64; 4] = [1_999_999, 2_999_999, 3_999_999, 4_000_009];
+fn big_term(id: u64) -> ST { iri(&format!("http://big.example/{}{}", ["", "s", "p", "o", "g", "t"][(id / 1_000_000) as usize], id % 1_000_000)) }
+fn big_id<T: Term>(t: T) -> u64 { t.iri().and_then(|i| { let x = i.as_str().strip_prefix("http://big.example/")?; let k = match x.as_bytes().first()? { b's' => 1, b'p' => 2, b'o' => 3, b'g' => 4, b't' => 5, _ => return None }; x[1..].parse::<u64>().ok().map(|n| k * 1_000_000 + n) }).unwrap_or(u64::MAX) }
+#[derive(Default)]
+struct SideOut { fails: Vec<(String, String)>, bumps: Vec<(String, u64)>, evals: u64, nontrivial: u64, coq: Vec<(usize, String)> }
+impl SideOut { fn bump(&mut self, k: &str, n: u64) { if let Some(e) = self.bumps.iter_mut().find(|e| e.0 == k) { e.1 += n; } else { self.bumps.push((k.into(), n)); } }
+    fn merge(&mut self, o: SideOut) { self.fails.extend(o.fails); for (k, n) in o.bumps { self.bump(&k, n); } self.evals += o.evals; self.nontrivial += o.nontrivial; self.coq.extend(o.coq); } }
+fn big_answers(s: &Store, mask: u8, p: &[ST; 4], g0: bool) -> Vec<[u64; 4]> { let mut v = s.matching_ids(mask, [&p[0], &p[1], &p[2]], if g0 { None } else { Some(&p[3]) }); v.sort_unstable(); v }
+/// every pattern shape but the listing (mask 0, unless `with0`) for the probe, against `exp` minus `minus` plus `plus`
+fn big_shapes(s: &Store, who: &str, nm: u8, probe: [u64; 4], exp: &[Vec<[u64; 4]>], minus: Option<[u64; 4]>, with0: bool) -> Option<String> {
+    let p = [big_term(probe[0]), big_term(probe[1]), big_term(probe[2]), big_term(probe[3].max(4_000_001))];
+    for mask in (if with0 { 0 } else { 1 })..nm { let got = big_answers(s, mask, &p, probe[3] == 0); let want: Vec<[u64; 4]> = exp[mask as usize].iter().copied().filter(|q| Some(*q) != minus).collect();
+        if got != want { let shape: String = (0..4).filter(|b| mask >> b & 1 == 1).map(|b| ["s", "p", "o", "g"][b]).collect::<Vec<_>>().join(",");
+            return Some(format!("{who} answers the pattern with the constants [{shape}] of the statement {probe:?} (identifiers s, p, o, g; 0 = default graph) with {} statements (first ones {:?}), but {} of the statements it was given match (first ones {:?})", got.len(), got.iter().take(3).collect::<Vec<_>>(), want.len(), want.iter().take(3).collect::<Vec<_>>())); } }
+    None
+}
+fn big_ladder(kind: usize, sizes: &[usize], seed: u64, out: &mut SideOut) {
+    let isg = fam_of(kind) == 1; let nm: u8 = if isg { 8 } else { 16 };
+    let mut store = Store::mk(kind, 1); let kname = store.kind(); let mut shadow: Vec<[u64; 4]> = vec![];
+    let tcache: std::cell::RefCell<std::collections::HashMap<u64, ST>> = Default::default();
+    let term = |id: u64| -> ST { tcache.borrow_mut().entry(id).or_insert_with(|| big_term(id)).clone() };
+    let largest = *sizes.iter().max().unwrap();
+    for (rung, &n) in sizes.iter().enumerate() {
+        let case = BIG_BASE + kind * 100 + rung; out.evals += 1; out.nontrivial += 1; let t_rung = std::time::Instant::now();
+        let mut stage = String::from("growing the store");
+        let mut fail: Option<String> = None;
+        let r = std::panic::catch_unwind(std::panic::AssertUnwindSafe(|| {
+            while shadow.len() < n { let q = big_stmt(shadow.len(), isg); let (a, b, c) = (term(q[0]), term(q[1]), term(q[2])); let g = if q[3] == 0 { None } else { Some(term(q[3])) };
+                if store.insert([&a, &b, &c], g.as_ref(), 0) != Ok(Some(true)) { fail = Some(format!("inserting the new statement {q:?} (#{}) did not return Ok(true)", shadow.len())); return; } shadow.push(q); }
+            let probe = big_stmt(n / 2, isg);
+            let exp: Vec<Vec<[u64; 4]>> = (0..nm).map(|mask| { let mut v: Vec<[u64; 4]> = shadow.iter().copied().filter(|q| (0..4).all(|b| mask >> b & 1 == 0 || q[b] == probe[b])).collect(); v.sort_unstable(); v }).collect();
+            // just above a power of two: Clone, clone_from and one more way (all 18 ways up to 2^10 + 1 statements); below and at it: Clone
+            let above = (n - 1).is_power_of_two();
+            let vias: Vec<usize> = if above && n <= 2048 { (0..NVIA).collect() } else if above { vec![0, 16, 1 + (seed as usize + rung + kind) % 15] } else { vec![0] };
+            for via in vias {
+                if std::env::var("BIG_TRACE").is_ok() { eprintln!("BIG   {kname} rung {n} via {via} at {} ms", t_rung.elapsed().as_millis()); }
+                stage = format!("cloning it (way {via})");
+                let (h, mut c, _) = clone_via(Held::Plain(std::mem::replace(&mut store, Store::mk(kind, 0))), via); store = h.unwrap();
+                let what = format!("a clone (way {via}) of a store of {n} statements");
+                stage = format!("querying {what}");
+                if c.stmts().len() != n { fail = Some(format!("{what} lists {} statements", c.stmts().len())); return; }
+                if let Some(w) = big_shapes(&c, &what, nm, probe, &exp, None, via == 0 && above) { fail = Some(w); return; }
+                if via == 0 && above {
+                    let mut got: Vec<[u64; 4]> = c.stmts().iter().map(|(t, g)| [big_id(t[0]), big_id(t[1]), big_id(t[2]), g.map(|g| big_id(g)).unwrap_or(0)]).collect(); got.sort_unstable();
+                    if got != exp[0] { let k = got.iter().zip(exp[0].iter()).position(|(a, b)| a != b).unwrap_or(0); fail = Some(format!("{what} does not list the statements of its original: {} statements, the {k}-th in sorted order is {:?}, expected {:?}", got.len(), got.get(k), exp[0].get(k))); return; }
+                    if n == largest || n == 1025 { stage = format!("calling the accessors of {what}");
+                        let ts: Vec<[ST; 4]> = shadow.iter().map(|q| [term(q[0]), term(q[1]), term(q[2]), term(q[3].max(4_000_001))]).collect();
+                        let st: Vec<([&ST; 3], Option<&ST>)> = ts.iter().zip(shadow.iter()).map(|(t, q)| ([&t[0], &t[1], &t[2]], if q[3] == 0 { None } else { Some(&t[3]) })).collect();
+                        if n <= 2048 { if let Some(w) = acc_mismatch(&c, &st, &iri("http://absent.example/never-inserted")) { fail = Some(format!("{what}: {w}")); return; } }
+                        else { let k = (seed as usize + kind) % nacc(kind); let (got, exp) = (c.accessors(Some(k), false).pop().unwrap(), expected_acc(fam_of(kind), &st, false).swap_remove(k));
+                            if as_set(&got.1) != as_set(&exp.1) { fail = Some(format!("{what}: {} yields {} distinct items, {} expected", got.0, as_set(&got.1).len(), as_set(&exp.1).len())); return; } } }
+                }
+                stage = format!("querying the original after {what} was made");
+                if via == 0 { if let Some(w) = big_shapes(&store, &format!("the original of {what}"), nm, probe, &exp, None, false) { fail = Some(w); return; } }
+                stage = format!("mutating {what}");
+                let pt = [term(probe[0]), term(probe[1]), term(probe[2]), term(probe[3].max(4_000_001))]; let nt = [term(BIG_NEW[0]), term(BIG_NEW[1]), term(BIG_NEW[2]), term(BIG_NEW[3])];
+                let r1 = c.remove([&pt[0], &pt[1], &pt[2]], if probe[3] == 0 { None } else { Some(&pt[3]) }); let r2 = c.insert([&nt[0], &nt[1], &nt[2]], Some(&nt[3]), 0);
+                if r1 != Some(true) || r2 != Ok(Some(true)) { fail = Some(format!("removing the statement {probe:?} from {what} returned {r1:?}, inserting a statement of new terms returned {r2:?}; expected Some(true), Ok(Some(true))")); return; }
+                stage = format!("querying {what} after a removal and an insertion");
+                if let Some(w) = big_shapes(&c, &format!("{what}, the statement {probe:?} removed and a new one inserted,"), nm, probe, &exp, Some(probe), false) { fail = Some(w); return; }
+                let newq = [BIG_NEW[0], BIG_NEW[1], BIG_NEW[2], if isg { 0 } else { BIG_NEW[3] }];
+                for mask in [1u8, 2, 4, 7, nm - 1] { let got = big_answers(&c, mask, &nt, false); if got != vec![newq] { fail = Some(format!("{what}, mutated, answers the pattern of shape {mask:04b} (gops) made of the statement of new terms just inserted into it with {:?}", got.iter().take(3).collect::<Vec<_>>())); return; } }
+                if c.stmts().len() != n { fail = Some(format!("{what} lists {} statements after one removal and one insertion", c.stmts().len())); return; }
+                stage = format!("querying the original after {what} was mutated");
+                if via == 0 || n <= 2048 { if let Some(w) = big_shapes(&store, &format!("the original of {what}, after the clone was mutated,"), nm, probe, &exp, None, false) { fail = Some(w); return; } }
+                else { for mask in [2u8, 5, nm - 1] { if big_answers(&store, mask, &pt, probe[3] == 0) != exp[mask as usize] { fail = Some(format!("the original of {what}, after the clone was mutated, no longer answers the pattern of shape {mask:04b} (gops) of {probe:?} with the {} statements it was given that match", exp[mask as usize].len())); return; } } }
+                if store.stmts().len() != n { fail = Some(format!("the original of {what} lists {} statements after the clone was mutated", store.stmts().len())); return; }
+                if via % 2 == 1 { stage = format!("cloning {what} again and dropping it"); let d = c.clone(); drop(c);
+                    if let Some(w) = big_shapes(&d, &format!("a clone of {what} (mutated, then dropped)"), nm, probe, &exp, Some(probe), false) { fail = Some(w); return; } }
+            }
+            // the original is dropped, its last clone goes on growing
+            stage = "dropping the original and querying its last clone".into();
+            let c = store.clone(); drop(std::mem::replace(&mut store, c));
+            if let Some(w) = big_shapes(&store, &format!("a clone of a store of {n} statements, the original dropped,"), nm, probe, &exp, None, false) { fail = Some(w); }
+        }));
+        if r.is_err() && fail.is_none() { fail = Some(format!("PANICKED while {stage}: {}", my_panic())); }
+        if std::env::var("BIG_TRACE").is_ok() { eprintln!("BIG {kname} rung {n}: {} ms", t_rung.elapsed().as_millis()); }
+        out.bump(&format!("size thresholds: rungs of {kname}"), 1);
+        if let Some(f) = fail { out.fails.push((case.to_string(), format!("size ladder of a {kname} (statement #i = s{{i/2048}} p{{(i/128)%16}} o{{i%128}}, graph name g{{(s+o)%4}}, 0 = default graph), rung of {n} statements: {f}"))); return; }
+    }
+}
+/// term indexes and stores holding 2^16 / 2^17 DISTINCT terms
+fn big_terms(kind: usize, sizes: &[usize], out: &mut SideOut) {
+    let fam = fam_of(kind); let mut store = Store::mk(kind, 1); let kname = store.kind(); let mut next = 0u64;
+    let (s0, p0, g0) = (big_term(1_000_000), big_term(2_000_000), big_term(4_000_001));
+    for (rung, &n) in sizes.iter().enumerate() {
+        let case = BIG_BASE + 50_000 + kind * 100 + rung; out.evals += 1; out.nontrivial += 1;
+        let mut stage = String::from("growing the store"); let mut fail: Option<String> = None;
+        let r = std::panic::catch_unwind(std::panic::AssertUnwindSafe(|| {
+            while store.len() < n { let t = big_term(5_000_000 + next); next += 1; let r = if fam == 0 { store.insert([&t, &t, &t], None, 0) } else { store.insert([&s0, &p0, &t], Some(&g0), 0) }; if r.is_err() { fail = Some(format!("interning the term #{} failed", store.len())); return; } }
+            let ids: Vec<u64> = (0..store.len()).map(|k| big_id(store.term_at(k))).collect();
+            for via in [0usize, 16] {
+                stage = format!("cloning it (way {via})");
+                let (h, mut c, _) = clone_via(Held::Plain(std::mem::replace(&mut store, Store::mk(kind, 0))), via); store = h.unwrap();
+                let what = format!("a clone (way {via}) of a store of {n} distinct terms");
+                stage = format!("reading {what}");
+                if c.len() != n { fail = Some(format!("{what} holds {} terms", c.len())); return; }
+                if let Some(k) = (0..n).find(|k| !same_term(c.term_at(*k), store.term_at(*k)) || big_id(c.term_at(*k)) != ids[*k]) { fail = Some(format!("{what}: the term at index {k} reads {:?}, the original's {:?}", c.term_at(k), store.term_at(k))); return; }
+                if c.audit().iter().any(|b| !b) { fail = Some(format!("{what} fails the storage audit")); return; }
+                let (mut iv, mut n_own) = (vec![], 0usize);
+                for (w, st) in [(0u8, &c), (1u8, &store)] { let (k, e) = st.strings(); for x in k.iter().chain(e.iter()) { if !x.2 { fail = Some(format!("{what}: a string of {} is borrowed, not owned", if w == 0 { "the clone" } else { "the original" })); return; } if x.1 > 0 { iv.push((x.0, x.0 + x.1, w)); n_own += 1; } } }
+                iv.sort_unstable(); if let Some(w) = iv.windows(2).find(|w| w[1].0 < w[0].1) { fail = Some(format!("{what}: two of the {n_own} strings of the clone and of its original overlap at {:#x} ({})", w[1].0, if w[0].2 == w[1].2 { "same store" } else { "one in each" })); return; }
+                if fam != 0 { if c.stmts().len() != store.stmts().len() { fail = Some(format!("{what} lists {} statements, its original {}", c.stmts().len(), store.stmts().len())); return; }
+                    let probe = big_term(5_000_000 + next / 2); for mask in [4u8, 5, 7] { let (a, b) = (c.matching(mask, [&s0, &p0, &probe], Some(&g0)).len(), store.matching(mask, [&s0, &p0, &probe], Some(&g0)).len()); if a != b || a != 1 { fail = Some(format!("{what} answers the pattern of shape {mask:03b} (ops) with the object {probe:?} with {a} statements, its original with {b}; expected 1")); return; } } }
+                stage = format!("mutating {what}");
+                let t = big_term(5_999_999); let r = if fam == 0 { c.insert([&t, &t, &t], None, 0) } else { c.insert([&s0, &p0, &t], Some(&g0), 0) };
+                if r.is_err() || c.len() != n + 1 || store.len() != n || !same_term(c.term_at(n), &t) { fail = Some(format!("after interning one more term into {what}: the clone holds {} terms, the original {}", c.len(), store.len())); return; }
+            }
+            stage = "dropping the original and reading its last clone".into();
+            let c = store.clone(); drop(std::mem::replace(&mut store, c));
+            if let Some(k) = (0..n).find(|k| big_id(store.term_at(*k)) != ids[*k]) { fail = Some(format!("a clone of a store of {n} distinct terms, the original dropped: the term at index {k} reads {:?}", store.term_at(k))); }
+        }));
+        if r.is_err() && fail.is_none() { fail = Some(format!("PANICKED while {stage}: {}", my_panic())); }
+        out.bump(&format!("size thresholds: rungs of distinct terms, {kname}"), 1);
+        if let Some(f) = fail { out.fails.push((case.to_string(), format!("ladder of distinct terms of a {kname}, rung of {n} terms: {f}"))); return; }
+    }
+}
+/// a history of 257 statements (the model's sets are lists: quadratic): load, clone, every shape on both sides, mutate the clone, every shape again, drop the original, every shape; through the oracle and the Coq model
+fn big_coq_case(kind: usize, out: &mut SideOut) {
+    let isg = fam_of(kind) == 1; let nm: u8 = if isg { 8 } else { 16 }; let n = 257usize; let case = BIG_BASE + 90_000 + kind;
+    out.evals += 1; out.nontrivial += 1;
+    let mut sides: [Option<Store>; 2] = [Some(Store::mk(kind, 1)), None]; let kname = sides[0].as_ref().unwrap().kind();
+    let mut shadow: [Vec<[u64; 4]>; 2] = [vec![], vec![]]; let mut ops = vec![format!("QNew 0 {}", design_of(kind))]; let mut obs = vec!["ONone".to_string()]; let mut fail: Option<String> = None;
+    let cq = |q: &[u64; 4]| format!("Q {} {} {} {}", q[3], q[0], q[1], q[2]);
+    let r = std::panic::catch_unwind(std::panic::AssertUnwindSafe(|| {
+        let ts = |q: [u64; 4]| [big_term(q[0]), big_term(q[1]), big_term(q[2]), big_term(q[3].max(4_000_001))];
+        for i in 0..n { let q = big_stmt(i, isg); let t = ts(q); let r = sides[0].as_mut().unwrap().insert([&t[0], &t[1], &t[2]], if q[3] == 0 { None } else { Some(&t[3]) }, 0); ops.push(format!("QIns 0 ({})", cq(&q))); obs.push(format!("OBool {}", coq_bool(r == Ok(Some(true))))); if r != Ok(Some(true)) { fail = Some(format!("inserting {q:?} did not return Ok(true)")); return; } shadow[0].push(q); }
+        sides[1] = Some(sides[0].as_ref().unwrap().clone()); shadow[1] = shadow[0].clone(); ops.push("QClone 0 1".into()); obs.push("ONone".into());
+        let probe = big_stmt(n / 2, isg); let pt = ts(probe);
+        let mut sweep = |sides: &[Option<Store>; 2], shadow: &[Vec<[u64; 4]>; 2], order: [usize; 2], ops: &mut Vec<String>, obs: &mut Vec<String>| -> Option<String> { for side in order { if let Some(s) = &sides[side] { for mask in 0..nm {
+            let got = big_answers(s, mask, &pt, probe[3] == 0); let mut want: Vec<[u64; 4]> = shadow[side].iter().copied().filter(|q| (0..4).all(|b| mask >> b & 1 == 0 || q[b] == probe[b])).collect(); want.sort_unstable();
+            ops.push(format!("QQuery {side} (P {mask} ({}))", cq(&probe))); obs.push(format!("OList {}", coq_list(got.iter().map(|q| cq(q)))));
+            if got != want { return Some(format!("{} answers the pattern of shape {mask:04b} (gops) of {probe:?} with {} statements, {} expected", SIDE[side], got.len(), want.len())); } } } } None };
+        if let Some(w) = sweep(&sides, &shadow, [1, 0], &mut ops, &mut obs) { fail = Some(w); return; }
+        let nt = ts(BIG_NEW); let newq = [BIG_NEW[0], BIG_NEW[1], BIG_NEW[2], if isg { 0 } else { BIG_NEW[3] }];
+        let r1 = sides[1].as_mut().unwrap().remove([&pt[0], &pt[1], &pt[2]], if probe[3] == 0 { None } else { Some(&pt[3]) }); ops.push(format!("QRem 1 ({})", cq(&probe))); obs.push(format!("OBool {}", coq_bool(r1 == Some(true)))); shadow[1].retain(|q| *q != probe);
+        let r2 = sides[1].as_mut().unwrap().insert([&nt[0], &nt[1], &nt[2]], Some(&nt[3]), 0); ops.push(format!("QIns 1 ({})", cq(&newq))); obs.push(format!("OBool {}", coq_bool(r2 == Ok(Some(true))))); shadow[1].push(newq);
+        if r1 != Some(true) || r2 != Ok(Some(true)) { fail = Some(format!("removing {probe:?} from the clone returned {r1:?}, inserting a new statement returned {r2:?}")); return; }
+        if let Some(w) = sweep(&sides, &shadow, [0, 1], &mut ops, &mut obs) { fail = Some(w); return; }
+        sides[0] = None; ops.push("QDrop 0".into()); obs.push("ONone".into());
+        if let Some(w) = sweep(&sides, &shadow, [1, 1], &mut ops, &mut obs) { fail = Some(w); }
+    }));
+    if r.is_err() && fail.is_none() { fail = Some(format!("PANICKED: {}", my_panic())); }
+    out.bump("size thresholds: histories of 257 statements also evaluated by the Coq model", 1);
+    if let Some(f) = fail { out.fails.push((case.to_string(), format!("history of {n} statements on a {kname} (load, clone, every shape on both sides, mutate the clone, every shape, drop the original, every shape): {f}"))); }
+    out.coq.push((case, format!("qhist_ok {} {}", coq_list(ops), coq_list(obs))));
+}
+thread_local! { static TL_PANIC: std::cell::RefCell<String> = std::cell::RefCell::new(String::new()); }
+/// the message of the last panic of THIS thread
+fn my_panic() -> String { TL_PANIC.with(|m| m.borrow().replace('\n', " ")) }
+/// everything of round 7 that does not depend on the random histories; run beside them on other threads
+fn side_streams(only: Option<usize>, seed: u64, thorough: bool) -> SideOut {
+    let mut out = SideOut::default(); let t_side = std::time::Instant::now();
+    // the size ladders: one thread per store type
+    let ladder: Vec<usize> = vec![1023, 1024, 1025, 1 << 16, (1 << 16) + 1, 1 << 17, (1 << 17) + 1];
+    let short: Vec<usize> = vec![1023, 1024, 1025, (1 << 16) + 1];
+    let long: Vec<usize> = [1usize << 10, 1 << 16, 1 << 17, 1 << 20].iter().flat_map(|t| [t - 1, *t, t + 1]).collect();
+    let tl: Vec<usize> = [1usize << 16, 1 << 17].iter().flat_map(|t| [t - 1, *t, t + 1]).collect();
+    // (kind, what: 0 statements, 1 distinct terms, 2 the history for Coq, sizes)
+    let mut jobs: Vec<(usize, u8, Vec<usize>)> = vec![];
+    // quick tier: FastGraph climbs the whole ladder, FastDataset every other rung of it; the single-index stores and two of the u16-indexed ones stop at 2^16 + 1, the others at 2^10 + 1
+    jobs.push((4, 0, if thorough { long.clone() } else { vec![1023, 1024, 1025, (1 << 16) + 1, (1 << 17) + 1] }));
+    jobs.push((2, 0, if thorough { long.clone() } else { ladder.clone() }));
+    for kind in [5usize, 3] { jobs.push((kind, 0, if thorough { long.clone() } else { short.clone() })); }
+    for kind in [13usize, 6] { jobs.push((kind, 0, if thorough { ladder.clone() } else { short.clone() })); }
+    for kind in [12usize, 14, 10, 11] { jobs.push((kind, 0, if thorough { ladder.clone() } else { vec![1023, 1024, 1025] })); }
+    for kind in [0usize, 3] { jobs.push((kind, 1, if thorough { tl.clone() } else { vec![1 << 16, (1 << 16) + 1, 1 << 17, (1 << 17) + 1] })); }
+    for kind in [9usize, 4] { jobs.push((kind, 1, if thorough { tl.clone() } else { vec![(1 << 16) + 1, (1 << 17) + 1] })); }
+    for kind in [2usize, 3, 4, 5, 6, 11] { jobs.push((kind, 2, vec![])); }
+    let jobs: Vec<_> = jobs.into_iter().filter(|(kind, what, sizes)| only.is_none_or(|o| { let b = BIG_BASE + [0, 50_000, 90_000][*what as usize] + kind * if *what == 2 { 1 } else { 100 }; o >= b && o < b + sizes.len().max(1) })).collect();
+    let acases = ascen_list(); let stride = 16usize;
+    let atodo: Vec<usize> = (0..acases.len()).filter(|k| only.is_none_or(|o| o == ABASE + k)).collect();
+    let next = std::sync::atomic::AtomicUsize::new(0); let anext = std::sync::atomic::AtomicUsize::new(0);
+    let parts: Vec<SideOut> = std::thread::scope(|scope| {
+        let hs: Vec<_> = (0..6).map(|_| { let (jobs, next, anext, acases, atodo) = (&jobs, &next, &anext, &acases, &atodo); scope.spawn(move || { let mut o = SideOut::default();
+            loop { let j = next.fetch_add(1, std::sync::atomic::Ordering::SeqCst); if j >= jobs.len() { break; } let (kind, what, sizes) = &jobs[j]; match what { 0 => big_ladder(*kind, sizes, seed, &mut o), 1 => big_terms(*kind, sizes, &mut o), _ => big_coq_case(*kind, &mut o) } }
+            if std::env::var("BIG_TRACE").is_ok() { eprintln!("SIDE thread done with the ladders at {} ms", t_side.elapsed().as_millis()); }
+            loop { let j = anext.fetch_add(64, std::sync::atomic::Ordering::SeqCst); if j >= atodo.len() { break; }
+                for &k in &atodo[j..(j + 64).min(atodo.len())] { let sc = &acases[k]; let sampled = only.is_some() || k % stride == seed as usize % stride;
+                    let (mut fail, mut coq, n) = run_ascen(k, sc, sampled); if fail.is_some() && !sampled { (fail, coq, _) = run_ascen(k, sc, true); }
+                    o.evals += 1; o.nontrivial += 1; o.bump(&format!("directed clone/mutate/observe:{}", design_of(sc.kind)), 1); o.bump("directed clone/mutate/observe: observations compared with the oracle", n as u64);
+                    if only.is_some() { println!("DIRECTED-OBSERVE {k}: {sc:?}\n{coq}\nFAIL {fail:?}"); }
+                    if fail.is_some() || sampled { o.coq.push((ABASE + k, coq)); o.bump("directed clone/mutate/observe: histories also evaluated by the Coq model", 1); }
+                    if let Some(f) = fail { o.fails.push(((ABASE + k).to_string(), f)); } } }
+            o }) }).collect();
+        hs.into_iter().map(|h| h.join().unwrap()).collect() });
+    if std::env::var("BIG_TRACE").is_ok() { eprintln!("SIDE all done at {} ms", t_side.elapsed().as_millis()); }
+    for p in parts { out.merge(p); }
+    out.fails.sort(); out.coq.sort_by_key(|c| c.0);
+    // (at most 12 of the directed histories are reported)
+    let mut nd = 0; out.fails.retain(|f| { if f.1.starts_with("directed") { nd += 1; nd <= 12 } else { true } });
+    out
+}
+
 fn main() {
     let a = parse_args();
     // a child process of the ill-behaved-trait scenarios (its panics are printed: the parent shows the last ones if it dies)
     if let Some(i) = a.rest.iter().position(|x| x == "--hostile") {
         // --hostile <class> <variant> <first store type> <last store type>
         let (class, v, from, to): (u8, u8, usize, usize) = (a.rest[i + 1].parse().unwrap(), a.rest[i + 2].parse().unwrap(), a.rest[i + 3].parse().unwrap(), a.rest[i + 4].parse().unwrap());
-        std::panic::set_hook(Box::new(|info| { if let Ok(mut m) = LAST_PANIC.lock() { *m = format!("{info}"); } eprintln!("panic: {info}") }));
+        std::panic::set_hook(Box::new(|info| { if let Ok(mut m) = LAST_PANIC.lock() { *m = format!("{info}"); } TL_PANIC.with(|m| *m.borrow_mut() = format!("{info}")); eprintln!("panic: {info}") }));
         for kind in from..=to.min(NKINDS - 1) { if class != 0 && fam_of(kind) == 0 { continue; }
             let name = Store::mk(kind, 1).kind(); println!("KIND {kind}");
             by_kind!(kind; T, _v => hostile_child::<T>(class, v, name)); }
@@ -1138,7 +1609,10 @@ fn main() {
         return;
     }
     let default_hook = std::panic::take_hook();
-    std::panic::set_hook(Box::new(move |info| { if let Ok(mut m) = LAST_PANIC.lock() { *m = format!("{info}"); } if !QUIET.with(|q| q.get()) { default_hook(info) } }));
+    std::panic::set_hook(Box::new(move |info| { if let Ok(mut m) = LAST_PANIC.lock() { *m = format!("{info}"); } TL_PANIC.with(|m| *m.borrow_mut() = format!("{info}")); if !QUIET.with(|q| q.get()) { default_hook(info) } }));
+    // round 7: the size ladders and the directed clone / mutate / observe histories run beside the random histories
+    let side = { let (only, seed, thorough) = (a.only, a.seed, a.rest.iter().any(|x| x == "--thorough-sizes"));
+        if only.is_none_or(|o| (o >= ABASE && o < HOSTILE_BASE) || o >= BIG_BASE) { Some(std::thread::spawn(move || side_streams(only, seed, thorough))) } else { None } };
     let mut sum = Summary::default();
     sum.rule = "case = history of 4..40 ops over up to 5 store slots (18 kinds: SimpleTermIndex<u32/u16/usize/tiny>, Fast/Light graph and dataset over u32, u16, usize and tiny capacity-limited indexes), each store kept inline or inside a Box/Rc/Arc/Vec: \
 new (Default, new(), bulk constructor on an empty source, mem::take), insert statement (terms of every kind incl. quoted triples, default-graph quads, also through a term type with owned-string accessors), bulk insert of 20..300 fresh terms (table growth across reallocation thresholds), remove (mostly of a statement that is there, or of one differing from it by one term, possibly a term the store never saw), \
@@ -1147,6 +1621,9 @@ drop (drop, overwrite, Vec::clear/truncate, on another thread), swap/move (slots
 queries as operations (one pattern shape first, then every shape, on a store and on the stores it was cloned from / into, in either order), a quarter more histories observed only through the storage hooks between those queries (clones taken and mutated before the first query of either side); \
 plus 2688 directed clone/mutate/query histories (14 graph and dataset types x 8 mutation plans x side and shape of the first query; all of them through the oracle, 1 in 16 through the Coq model C10/Query.v), \
 plus subprocess scenarios with safe but ill-behaved user-defined Term / TermMatcher / GraphNameMatcher / Source implementations at every entry point of the 18 store types (a process that dies is the failure; storage audit and content comparison of the store and of a clone taken before after every call); \
+plus (round 7) every other observation method (subjects / predicates / objects / graph_names / iris / blank_nodes / literals / quoted_triples / variables / contains / as_dataset / union_graph / graph(g)) compared with the oracle on the stores a step touched and on their relatives by cloning, at every Query operation and at the end of every history; \
+5152 directed clone/mutate/observe histories (first observation = one accessor on one side, possibly also called before the clone; 1 in 16 through the Coq model C10/Observe.v); \
+size ladders: one store per type grown once to 2^10, 2^16, 2^17 (+-1) statements (2^20 in the thorough tier), cloned at every rung (every way at 2^k+1), every pattern shape on the clone and on the original before and after mutating the clone, original dropped and the clone grown further; the same with 2^16 / 2^17 distinct terms; a 257-statement history per design through the Coq model; \
 non-trivial = at least one clone whose source is later dropped or mutated while the clone stays live and non-empty (every directed history is); distinct = distinct printed history".into();
     let ids = Ids::new();
     let absent = iri("http://absent.example/never-inserted");
@@ -1319,12 +1796,16 @@ non-trivial = at least one clone whose source is later dropped or mutated while 
             // oracle after every step (see check_step)
             if failure.is_none() {
                 let run_shapes = matches!(ops.last(), Some(Op::Clone(..)) | Some(Op::CloneFrom(..)) | Some(Op::Insert(..)) | Some(Op::Remove(..)) | Some(Op::Collect(..)) | Some(Op::Extend(..)) | Some(Op::Take(..)) | Some(Op::CloneGrow(..)) | Some(Op::Thread(..)) | Some(Op::Bulk(..)));
-                failure = check_step(&slots, &shadow, &ids, &ops, &cloned_from, run_shapes && !quiet, &absent, quiet);
+                let touched: Vec<usize> = match ops.last().unwrap() { Op::New(s, ..) | Op::Insert(s, ..) | Op::Bulk(s, ..) | Op::Remove(s, ..) | Op::Drop(s, ..) | Op::Rewrap(s, ..) | Op::Thread(s, ..) => vec![*s],
+                    Op::Clone(s, d, ..) | Op::Swap(s, d, ..) | Op::CloneFrom(s, d) | Op::Take(s, d, ..) | Op::Collect(s, d, ..) | Op::Extend(s, d) | Op::CloneGrow(s, d, ..) => vec![*s, *d], Op::Query(..) => vec![] };
+                // (C10 is about clones: after a step, the accessors of the stores it touched are compared if they have live relatives by cloning, and those of the relatives)
+                let mut group = clone_group(&touched, &cloned_from); group.retain(|i| slots[*i].is_some()); if group.len() < 2 { group.clear(); }
+                failure = check_step(&slots, &shadow, &ids, &ops, &cloned_from, run_shapes && !quiet, &absent, quiet, &group, false);
             }
             if failure.is_some() { break; }
         }
         // a quiet history ends with the full comparison of every live store (every shape on every clone and source of a clone)
-        if quiet && failure.is_none() { failure = check_step(&slots, &shadow, &ids, &ops, &cloned_from, true, &absent, false); }
+        if failure.is_none() { failure = check_step(&slots, &shadow, &ids, &ops, &cloned_from, quiet, &absent, false, &[0, 1, 2, 3, 4], true); }
         }));
         if unwound.is_err() && failure.is_none() { failure = Some(format!("after {:?}: the operation {:?} (or the comparison of the stores with what they were given, right after it) PANICKED: {}", ops, current, last_panic())); }
         if failure.is_none() { for (i, h) in slots.iter().enumerate() { if let Some(h) = h { let s = h.get(); let bad = s.out_of_range_reads(); if let Some(b) = bad.first() { failure = Some(format!("after {:?}: store #{i} ({}): {b} (TermIndex::get_term is a safe method: an index that was never handed out must panic, not read out of bounds)", ops, s.kind())); break; } } } }
@@ -1378,7 +1859,10 @@ non-trivial = at least one clone whose source is later dropped or mutated while 
     }
     sum.bump_by("directed clone/mutate/query: queries compared with the shadow", nq_total);
     sum.bump_by("directed clone/mutate/query: histories also evaluated by the Coq model", coq_q);
-    if a.only.is_none_or(|o| o >= HOSTILE_BASE) { hostile_stream(&mut sum, a.only); }
+    if a.only.is_none_or(|o| o >= HOSTILE_BASE && o < BIG_BASE) { hostile_stream(&mut sum, a.only); }
+    if let Some(side) = side { match side.join() {
+        Ok(o) => { sum.evaluations += o.evals; sum.distinct_nontrivial += o.nontrivial; for (k, n) in o.bumps { sum.bump_by(&k, n); } sum.oracle_failures.extend(o.fails); cases.extend(o.coq); }
+        Err(_) => sum.oracle_failures.push(("side-streams".into(), format!("the thread of the size ladders / directed observe histories PANICKED outside a scenario: {}", last_panic()))) } }
     if a.only.is_some_and(|o| o >= QBASE) { println!("c10: {} oracle failures: {:?}", sum.oracle_failures.len(), sum.oracle_failures); return; }
     for b in inline_term_scenarios() { sum.oracle_failures.push(("inline-terms".into(), b)); }
     sum.evaluations += 4; sum.bump("scenario:inline self-borrowing term type");
@@ -1388,8 +1872,9 @@ non-trivial = at least one clone whose source is later dropped or mutated while 
     sum.evaluations += 4; sum.bump("scenario:owned-string accessors and native literals");
     if a.only.is_none() {
         sum.extra.push(("coq_cases".into(), cases.len().to_string()));
-        sum.shards = write_shards(&a.out, QHEADER, &cases, a.shards);
+        sum.shards = write_shards(&a.out, &format!("{QHEADER}\n{AHEADER}"), &cases, a.shards);
         std::fs::write(format!("{}/summary.json", a.out), sum.to_json()).unwrap();
     }
+    if std::env::var("BIG_TRACE").is_ok() { eprintln!("accessor comparisons: {} ms", ACC_NS.load(std::sync::atomic::Ordering::Relaxed) / 1_000_000); }
     println!("c10: {} cases, {} distinct non-trivial, {} oracle failures", sum.evaluations, sum.distinct_nontrivial, sum.oracle_failures.len());
 }
